@@ -63,6 +63,9 @@ pub struct Case {
     pub items: Vec<Item>,
     pub cuts: Vec<u16>,
     pub read_half: bool,
+    /// after the last message the peer starts one more frame and disappears inside it (FIN); the value picks where
+    #[serde(default)]
+    pub dies_inside: Option<u16>,
 }
 
 const WITH_PAYLOAD: &[u8] = &[2, 6, 12, 16, 22, 23, 24, 25, 26, 27, 28, 33, 34];
@@ -105,6 +108,8 @@ struct Built {
     junk_frames: usize,
     ticks: usize,
     split_forms: usize,
+    /// bytes of an unfinished frame at the very end of the stream (0 = none)
+    partial: usize,
 }
 
 fn build(c: &Case) -> Built {
@@ -247,22 +252,40 @@ fn build(c: &Case) -> Built {
     }
     let (sc, sp) = sentinel();
     emit_msg(sc, Some(sp), &Form::PassThrough, &mut stream, &mut expected, &mut cache);
-    Built { stream, expected, junk_frames, ticks, split_forms }
+    let mut partial = 0;
+    if let Some(k) = c.dies_inside {
+        let control = Value::Tuple(vec![Value::int(2), Value::atom(""), Value::Pid { node: "rust@127.0.0.1".into(), id: 7, serial: 0, creation: 1 }]);
+        let payload = if k & 4 == 0 { Value::atom("never_finished") } else { Value::binary(&vec![0x5a; 70_000]) };
+        let clen = refenc_canonical(&control).len();
+        let f = frame4(&pass_through(&control, Some(&payload)));
+        let cut = match k & 3 {
+            0 | 1 => 4 + 1 + clen,                                  // exactly between the control term and the payload
+            2 => [1usize, 2, 3, 4, 5, 6][(k >> 3) as usize % 6],    // inside the length prefix / just behind the marker
+            _ => 5 + ((k >> 3) as usize * (f.len() - 6) >> 13).min(f.len() - 6), // anywhere inside
+        };
+        stream.extend_from_slice(&f[..cut]);
+        partial = cut;
+    }
+    Built { stream, expected, junk_frames, ticks, split_forms, partial }
 }
 
 enum Got {
     Ok(Value, Option<Value>),
     Err(String),
+    /// what the receive call after the last complete message returned when the peer died inside a frame
+    AfterEnd(Result<String, String>),
 }
 
 fn run_net(c: &Case, b: &Built) -> Result<Result<Vec<Got>, String>, BedErr> {
     let c = c.clone();
     let stream = b.stream.clone();
     let max_results = b.expected.len() + b.junk_frames + 8;
+    let partial = b.partial > 0;
     run_case(Duration::from_secs(30), move |bed| async move {
         let extra = if c.header_mode { DistributionFlags::DIST_HDR_ATOM_CACHE.as_u64() } else { 0 };
         let ours = DistributionFlags::default().as_u64() | extra;
-        let (mut conn, mut p, _) = connected_pair(&bed, ours, DistributionFlags::default().as_u64() | extra, Duration::from_secs(5)).await?;
+        let (mut conn, p, _) = connected_pair(&bed, ours, DistributionFlags::default().as_u64() | extra, Duration::from_secs(5)).await?;
+        let mut p = Some(p);
         let done = Cell::new(false);
         let results: RefCell<Vec<Got>> = RefCell::new(vec![]);
         let (s_end, _) = sentinel();
@@ -281,6 +304,16 @@ fn run_net(c: &Case, b: &Built) -> Result<Result<Vec<Got>, String>, BedErr> {
                         let is_end = cv.same(&s_end);
                         results.borrow_mut().push(Got::Ok(cv, payload.as_ref().map(denote)));
                         if is_end {
+                            if partial {
+                                let r = match rh.as_mut() {
+                                    Some(h) => Connection::receive_message_from_read_half(h, Duration::from_secs(5)).await,
+                                    None => conn.receive_message().await,
+                                };
+                                results.borrow_mut().push(Got::AfterEnd(match r {
+                                    Ok((ctrl, payload)) => Ok(format!("{} / {:?}", denote(&ctrl.to_term()).render(), payload.as_ref().map(|t| crate::engine::truncate(&denote(t).render(), 80)))),
+                                    Err(e) => Err(e.to_string()),
+                                }));
+                            }
                             break;
                         }
                     }
@@ -305,8 +338,13 @@ fn run_net(c: &Case, b: &Built) -> Result<Result<Vec<Got>, String>, BedErr> {
         };
         let sender = async {
             let cuts: Vec<usize> = c.cuts.iter().map(|k| (*k as usize * stream.len()) >> 16).collect();
-            let _ = p.write_segmented(&stream, &cuts).await;
-            p.settle().await;
+            let pp = p.as_mut().unwrap();
+            let _ = pp.write_segmented(&stream, &cuts).await;
+            pp.settle().await;
+            if partial {
+                // the peer goes away for good inside the frame it has just started
+                p.take().unwrap().close_gracefully();
+            }
             // if the receiver is still waiting, only its timeout can end the wait: let virtual time pass
             for _ in 0..6 {
                 if done.get() {
@@ -342,6 +380,7 @@ pub fn oracle(c: &Case) -> Verdict {
             match g {
                 Got::Ok(c, p) => eprintln!("got[{i}] = Ok {} / {:?}", c.render(), p.as_ref().map(|v| v.render())),
                 Got::Err(e) => eprintln!("got[{i}] = Err {e}"),
+                Got::AfterEnd(r) => eprintln!("got[{i}] = after the end {r:?}"),
             }
         }
     }
@@ -349,6 +388,15 @@ pub fn oracle(c: &Case) -> Verdict {
     // missing (known finding) but nothing else
     let oks: Vec<(&Value, &Option<Value>)> = got.iter().filter_map(|g| if let Got::Ok(c, p) = g { Some((c, p)) } else { None }).collect();
     let errs = got.iter().filter(|g| matches!(g, Got::Err(_))).count();
+    for g in &got {
+        if let Got::AfterEnd(Ok(what)) = g {
+            vfail_!(
+                "unfinished-frame-delivered-as-message",
+                format!("the peer sent {} bytes of a frame and closed the connection; the receiver returned a message for it: {what}", b.partial)
+            );
+        }
+    }
+    let died_inside = got.iter().any(|g| matches!(g, Got::AfterEnd(Err(_))));
     // align the delivered messages with the expected ones; a multi-fragment message is optional
     let same = |k: usize, g: usize| -> bool {
         let (ec, ep, _) = &b.expected[k];
@@ -426,6 +474,7 @@ pub fn oracle(c: &Case) -> Verdict {
         .class_if(c.header_mode && !c.read_half, "header-mode")
         .class_if(c.read_half, "read-half-loop")
         .class_if(!c.cuts.is_empty(), "segmented-stream")
+        .class_if(died_inside, "peer-died-inside-a-frame")
         .class_if(b.expected.iter().any(|e| e.2), "multi-fragment");
     if missing_fragmented > 0 {
         return Verdict::Known {
@@ -463,16 +512,16 @@ fn strategy() -> impl Strategy<Value = Case> {
         2 => Just(Item::Tick),
         3 => junk.prop_map(Item::Junk),
     ];
-    (any::<bool>(), prop::collection::vec(item, 1..14), prop::collection::vec(any::<u16>(), 0..8), prop::bool::weighted(0.25)).prop_map(|(header_mode, items, cuts, read_half)| {
+    (any::<bool>(), prop::collection::vec(item, 1..14), prop::collection::vec(any::<u16>(), 0..8), prop::bool::weighted(0.25), prop::option::weighted(0.3, any::<u16>())).prop_map(|(header_mode, items, cuts, read_half, dies_inside)| {
         // the node's read loop (read-half variant) cannot skip bad frames by itself: its caller decides; junk is allowed there too
-        Case { header_mode, items, cuts, read_half }
+        Case { header_mode, items, cuts, read_half, dies_inside }
     })
 }
 
 pub fn run(run: &mut Run) {
     run.rule = "scripts of up to 14 items from a conforming sender model over a real loopback socket: every control-message kind of the protocol table with fields and payloads from the term space (a few bytes to \
         200 KB), in pass-through form, with a distribution header (persistent sender atom cache, all segments) or split into 1..5 fragments, interleaved with ticks and with malformed frames (random bytes, truncated \
-        terms, wrong marker, short fragment headers, continuations of unknown sequences, non-tuple / empty-tuple control terms), the byte stream cut into arbitrary TCP writes; a sentinel ends each script. \
+        terms, wrong marker, short fragment headers, continuations of unknown sequences, non-tuple / empty-tuple control terms), the byte stream cut into arbitrary TCP writes; a sentinel ends each script; in 30% of the scripts the peer then starts one more frame and closes the connection inside it (between control term and payload, inside the length prefix, anywhere), which must not be returned as a message. \
         Both Connection::receive_message and receive_message_from_read_half are driven. Oracle: Ok results in order = valid messages in order, each once; at most one error per bad frame; no panic. \
         Non-trivial = >= 3 valid messages and a junk frame, tick, non-pass-through form or split stream"
         .into();
